@@ -143,7 +143,7 @@ pub fn e2(id: &str) -> Option<E2Def> {
                 mode: Mode::Evict,
                 profile: p,
                 quick_programs: 128,
-                thorough_programs: 500,
+                thorough_programs: 200,
                 quick_points: 14,
                 rule: "programs over 2-3 keyspaces with different memtable sizes, journal position scale 64000 (journal rotation after ~1 KB, in fjall's unmodified Flush path), generated orders of rotate / worker-step / clear / keyspace deletion, ending with 'rotate + flush every keyspace'; SIGKILL immediately after and immediately before EVERY unlink of a *.jnl file plus sampled generic points; oracle = recovery yields the full acknowledged state (prefix model, p >= acknowledged); log invariants: unlinked journal ids strictly increasing, always the smallest id present, never the active journal; at the end journal_count() == 1 and exactly one *.jnl on disk; non-trivial = kill adjacent to a journal unlink in a program with >= 2 journal rotations; distinct by (program hash, kill index)",
                 assumptions: vec!["max_journaling_size stays at its default (the straggler path needs >= 64 MiB of journals and is not reached)"],
